@@ -134,6 +134,59 @@ R.add('L6.5', l65, [{}], replay=replay_l65, desc='payload above MAX_FRAGMENT_SIZ
       expect=['payload above the fragmentation limit is refused with ValueError'])
 
 
+# ------------------------------------------------------------------ L6.5b the limit itself is accepted
+def l65b(maxfrags):
+    """the fragmentation limit is MAX_FRAGMENT_SIZE * MAX_FRAGMENTS, and a payload of exactly that size is still sent.
+    The guard and the split loop read Packet.MAX_FRAGMENTS at run time; to keep the unrolling small the harness sets it
+    to `maxfrags` (production: 8192) and lets the length range over the whole neighbourhood of the limit."""
+    c = mk_conn(mtu_sym=False)
+    saved = Packet.MAX_FRAGMENTS
+    Packet.MAX_FRAGMENTS = maxfrags
+    try:
+        limit = Packet.MAX_FRAGMENT_SIZE * maxfrags
+        payload, L = rope.blob('p', limit - Packet.MAX_FRAGMENT_SIZE, limit + Packet.MAX_FRAGMENT_SIZE)
+        try:
+            c.send(payload, RetryMode.RETRY_ON_TIMEOUT, None)
+            raised = False
+        except ValueError:
+            raised = True
+    finally:
+        Packet.MAX_FRAGMENTS = saved
+    check(Iff(raised, L > limit), 'a payload is refused exactly when it is larger than MAX_FRAGMENT_SIZE * MAX_FRAGMENTS')
+    if not raised:
+        q = c.outgoing_messages
+        check(len(q) <= maxfrags, 'an accepted payload needs at most MAX_FRAGMENTS fragments')
+        bodies = [conn.FragmentSender.parsePayload(m.payload)[3] for m in q]
+        check(conn.__dict__['__sx_join__'](b'', bodies) == payload, 'the accepted payload is queued completely')
+    else:
+        check(len(c.outgoing_messages) == 0, 'nothing queued for a refused payload')
+
+
+def replay_l65b(cfg, m):
+    c = real('mpgameserver.connection')
+    cn = c.ConnectionBase(False, ('p', 1))
+    cn.status = c.ConnectionStatus.CONNECTED
+    saved = c.Packet.MAX_FRAGMENTS
+    c.Packet.MAX_FRAGMENTS = cfg['maxfrags']
+    try:
+        limit = c.Packet.MAX_FRAGMENT_SIZE * cfg['maxfrags']
+        n = m.get('p_len', limit)
+        try:
+            cn.send(bytes(n), c.RetryMode.RETRY_ON_TIMEOUT, None)
+            raised = False
+        except ValueError:
+            raised = True
+    finally:
+        c.Packet.MAX_FRAGMENTS = saved
+    return raised != (n > limit), 'MAX_FRAGMENTS=%d: payload of %d bytes (limit %d): refused=%s' % (cfg['maxfrags'], n, limit, raised)
+
+
+R.add('L6.5b', l65b, lambda tier: [dict(maxfrags=3)] if tier == 'quick' else [dict(maxfrags=3), dict(maxfrags=8)], replay=replay_l65b,
+      desc='payload lengths around MAX_FRAGMENT_SIZE*MAX_FRAGMENTS (MAX_FRAGMENTS lowered to 3 / 8 for the unrolling): refused <=> above the limit',
+      expect=['a payload is refused exactly when it is larger than MAX_FRAGMENT_SIZE * MAX_FRAGMENTS', 'the accepted payload is queued completely'],
+      bounds='MAX_FRAGMENTS set to 3 (thorough also 8) instead of 8192; length within one fragment of the limit on both sides')
+
+
 # ------------------------------------------------------------------ L6.2 one reassembly step
 def mk_ctx(rx, fid, n, name, now):
     """arbitrary receiver context for fragment id `fid` with n slots, a symbolic subset filled"""
